@@ -183,6 +183,33 @@ func init() {
 			c.End()
 			c.Finish()
 		}},
+		// counter-chain DEX batches of more than 256 limit orders with repeated contents 256 positions apart and a
+		// liquidity withdrawal in the same batch (oracle-only: DEX internals are modelled under C20): handling a batch
+		// only moves tokens, so the sum oracle must hold after it (`C04:total-supply-mismatch-dex-batch`)
+		scenario{"dex-big-batch", func(o *drv.Out, prop string) {
+			for k := 0; k < 3; k++ {
+				g := baseGenesis()
+				g.Validators = []GenVal{{Key: BLSKeys[0], Stake: 1000000, Committees: []uint64{1, 2}, Output: BLSKeys[0].Addr}}
+				g.Pools = []GenPool{{Id: 2 + LiquidityPoolAddend, Amount: 1000000000}}
+				c, _ := NewChain(o, prop, g)
+				emptyBlocks(c, 1)
+				lp := EdKeys[3].Addr
+				c.DexSetup(2, lp)
+				c.Mint()
+				b := &lib.DexBatch{Committee: 1, PoolSize: 1000000000, ReceiptHash: make([]byte, 32)}
+				for i := 0; i < 300+100*k; i++ {
+					trader := i % 256
+					addr := make([]byte, 20)
+					addr[0], addr[1] = 0xAA, byte(trader)
+					b.Orders = append(b.Orders, &lib.DexLimitOrder{AmountForSale: 1000000, RequestedAmount: 1, Address: addr, OrderId: []byte{0xBB, byte(i), byte(i >> 8)}})
+				}
+				b.Withdrawals = []*lib.DexLiquidityWithdraw{{Address: lp, Percent: 50, OrderId: []byte{0xCC}}}
+				c.DexBatch(o.Rng, 2, b)
+				c.End()
+				emptyBlocks(c, 1)
+				c.Finish()
+			}
+		}},
 	)
 }
 
